@@ -559,3 +559,12 @@ func vInitialValuesComputed() (int, []string) {
 //@   modifies c.known[..], c.vars[..]
 //@   ensures[gone] key.KnownProp != 0 && int(key.KnownProp) < len(c.known) ==> c.known[key.KnownProp] == nil
 //@   ensures[others-kept] key.KnownProp != 0 ==> forall(j, 0, len(c.known), j != int(key.KnownProp) ==> c.known[j] == old(c.known[j]))
+
+// a copy of a style computes the same values as the original: it is built from the same parent, the same
+// cascaded declarations, the same element and pseudo-element, the same ROOT style (the reference of rem
+// units) and the same base url
+//@ func (*ComputedStyle).Copy
+//@   props C04
+//@   modifies anything
+//@   requires c != nil
+//@   call newComputedStyle#1 assert[same-context] arg0 == c.parentStyle && arg1 == c.cascaded && arg2 == c.element && arg3 == c.pseudoType && arg4 == c.rootStyle && arg5 == c.baseUrl && arg6 == c.textContext
